@@ -56,7 +56,7 @@ func Main(t *testing.T, f func(env Env) *Result) {
 	if s := os.Getenv("VERIF_WORKERS"); s != "" {
 		env.Workers, _ = strconv.Atoi(s)
 	}
-	budget := 150 * time.Second
+	budget := 120 * time.Second
 	if env.Tier == "thorough" {
 		budget = 40 * time.Minute
 	}
